@@ -102,7 +102,8 @@ namespace avel {
     [[nodiscard]]
     AVEL_FINL std::int64_t abs(std::int64_t x) {
         if (x < 0) {
-            return -x;
+            // Negate as unsigned: -x overflows for the minimum value
+            return static_cast<std::int64_t>(std::uint64_t{0} - static_cast<std::uint64_t>(x));
         } else {
             return x;
         }
